@@ -36,6 +36,8 @@ func init() {
 			{Name: "returns", Run: runReturns},
 			{Name: "callhist", Run: runCallHist},
 			{Name: "alias", Run: runAlias},
+			{Name: "objstruct", Run: runObjStruct},
+			{Name: "lattice", Run: runLattice},
 			{Name: "kindtwins", Run: func(r *engine.Run) { brig.RunKindTwins(r, true) }},
 			{Name: "histories", Run: runHistories},
 			{Name: "lethal", Run: runLethal},
